@@ -26,6 +26,9 @@ func (e *Engine) newUnit(name string, fn *ssa.Function, con *Contract) *Unit {
 	u := &Unit{e: e, c: NewTermCtx(), fn: fn, con: con, name: shortName(name), invDone: map[string]bool{}, counters: map[string]int{},
 		usedTrusted: map[string]bool{}, pureApps: map[string]bool{}, mapAxDone: map[string]bool{},
 		globalVals: map[string]*SV{}, closures: map[*Term]*closureVal{}, usedContracts: map[string]bool{}}
+	if con != nil && con.Display != "" {
+		u.name = shortName(con.Display)
+	}
 	u.alloc0 = u.c.Const("alloc0", SInt)
 	u.c.allocBase = map[int]bool{u.alloc0.id: true}
 	u.c.oldRoot = map[int]bool{}
@@ -63,6 +66,9 @@ func (e *Engine) VerifyFunction(name string) (res *UnitResult) {
 	con := e.contracts[name]
 	fn := e.fns[name]
 	res = &UnitResult{Name: shortName(name)}
+	if con != nil && con.Display != "" {
+		res.Name = shortName(con.Display)
+	}
 	if con == nil || fn == nil {
 		res.Err = fmt.Errorf("no contract or function for %s", name)
 		return res
@@ -70,6 +76,11 @@ func (e *Engine) VerifyFunction(name string) (res *UnitResult) {
 	res.Fingerprint = e.Fingerprint(fn)
 	u := e.newUnit(name, fn, con)
 	res.Unit = u
+	for _, cl := range con.Ensures {
+		if strings.Contains(cl.Src, "logsent(") || strings.Contains(cl.Line, "logsent(") {
+			u.wantsSent = true
+		}
+	}
 	if con.Trusted {
 		res.Trusted = true
 		return res
@@ -153,6 +164,9 @@ func (e *Engine) VerifyFunction(name string) (res *UnitResult) {
 				p := u.evalClause(post, en)
 				part := &Obligation{Name: fmt.Sprintf("%s@ret%d", parents[i].Name, ri), Kind: "post", Tags: en.Tags, Guard: r.guard, Prop: p,
 					NAssume: len(u.assumptions), Src: parents[i].Src, Unit: u, Pos: parents[i].Pos, RetState: r.st.clone(), RetVals: r.vals}
+				if r.pos.IsValid() {
+					part.Pos = u.e.fset.Position(r.pos)
+				}
 				parents[i].Parts = append(parents[i].Parts, part)
 			}
 		}
@@ -385,6 +399,7 @@ func (o *Obligation) RelaxedVCGoal() ([]*Term, *Term) {
 	as = append(as, of...)
 	as = append(as, u.aliasFactsFor(op, o.NAssume)...)
 	as = append(as, u.frameInstances(as, o.NAssume)...)
+	as = append(as, u.ematch(u.assumptions[:o.NAssume], as)...)
 	var qf []*Term
 	for _, a := range as {
 		if !hasQuant(a) {
